@@ -2,6 +2,7 @@ package props
 
 import (
 	"fmt"
+	"strings"
 	"testing"
 
 	"pgregory.net/rapid"
@@ -22,23 +23,34 @@ var c05Cfg = kit.WorldCfg{
 // The generated histories use a richer schema than the exhaustive part: three stores, a child store over "as",
 // plain and ref-counted collections, two collections of bs whose remote symbols have the same name, a collection
 // declared on the child store, and ids that are proper prefixes of other ids.
-var c05RichCfg = kit.WorldCfg{
-	Stores:   []kit.StoreCfg{{Name: "as"}, {Name: "bs"}, {Name: "cs"}},
-	Children: []kit.ChildCfg{{Name: "ak", Parent: "as"}},
-	Links: []kit.LinkCfg{
-		{A: "as", FieldA: "blinks", B: "bs", FieldB: "alinks"},
-		{A: "as", FieldA: "rcb", B: "bs", FieldB: "rca", RefCounted: true},
-		{A: "cs", FieldA: "blinks", B: "bs", FieldB: "clinks"},
-		{A: "cs", FieldA: "rcb", B: "bs", FieldB: "rcc", RefCounted: true},
-		{A: "ak", FieldA: "klinks", B: "bs", FieldB: "kback"},
-	},
+var c05RichCfg = c05RichCfgFor(false)
+
+// c05RichCfgFor: "ds" has ref-counted collections only; the child store "ak" may be an extended one.
+func c05RichCfgFor(extendedChild bool) kit.WorldCfg {
+	return kit.WorldCfg{
+		Stores:   []kit.StoreCfg{{Name: "as"}, {Name: "bs"}, {Name: "cs"}, {Name: "ds"}},
+		Children: []kit.ChildCfg{{Name: "ak", Parent: "as", Extended: extendedChild}},
+		Links: []kit.LinkCfg{
+			{A: "as", FieldA: "blinks", B: "bs", FieldB: "alinks"},
+			{A: "as", FieldA: "rcb", B: "bs", FieldB: "rca", RefCounted: true},
+			{A: "cs", FieldA: "blinks", B: "bs", FieldB: "clinks"},
+			{A: "cs", FieldA: "rcb", B: "bs", FieldB: "rcc", RefCounted: true},
+			{A: "ak", FieldA: "klinks", B: "bs", FieldB: "kback"},
+			{A: "ds", FieldA: "rcb", B: "bs", FieldB: "rcd", RefCounted: true},
+		},
+	}
 }
 
+// ids: prefixes of other ids, one id of exactly 64 bytes, and one id ("shared") used in several stores (ids are
+// unique per store only)
+var c05Long64 = "id64-" + strings.Repeat("x", 59)
+
 var c05IDs = map[string][]string{
-	"as": {"a1", "a10", "a2"},
-	"ak": {"a1", "a10", "a2"},
-	"bs": {"b1", "b10", "b2", "b"},
-	"cs": {"c1", "c10"},
+	"as": {"a1", "a10", "a2", "shared"},
+	"ak": {"a1", "a10", "a2", "shared"},
+	"bs": {"b1", "b10", "b2", "b", "shared", c05Long64},
+	"cs": {"c1", "c10", "shared"},
+	"ds": {"d1", c05Long64},
 }
 
 type c05Side struct {
@@ -59,9 +71,9 @@ func genC05(t *rapid.T) kit.History {
 	var setup []kit.TxSpec
 	if rapid.IntRange(0, 4).Draw(t, "prepopulate") > 0 {
 		tx := kit.TxSpec{}
-		for _, store := range []string{"as", "bs", "cs"} {
+		for _, store := range []string{"as", "bs", "cs", "ds"} {
 			for _, id := range c05IDs[store] {
-				if rapid.IntRange(0, 4).Draw(t, "pre_"+id) > 0 {
+				if rapid.IntRange(0, 4).Draw(t, "pre_"+store+"_"+id) > 0 {
 					via := store
 					if store == "as" && rapid.Bool().Draw(t, "prekid_"+id) {
 						via = "ak" // created through the child store: has child data
@@ -78,7 +90,8 @@ func genC05(t *rapid.T) kit.History {
 		ids := c05IDs[store]
 		return ids[rapid.IntRange(0, len(ids)-1).Draw(t, l)]
 	}
-	h := genC05Random(t, setup, pickID)
+	cfg := c05RichCfgFor(rapid.IntRange(0, 2).Draw(t, "extendedChild") == 0)
+	h := genC05Random(t, cfg, setup, pickID)
 	if rapid.IntRange(0, 2).Draw(t, "shrinkTx") > 0 {
 		return h
 	}
@@ -142,15 +155,15 @@ func genC05(t *rapid.T) kit.History {
 	return h
 }
 
-func genC05Random(t *rapid.T, setup []kit.TxSpec, pickID func(t *rapid.T, l, store string) string) kit.History {
-	return kit.GenHistoryFrom(t, c05RichCfg, setup, 25, 3, false, 50, func(t *rapid.T, l string, m *kit.Model) kit.Op {
+func genC05Random(t *rapid.T, cfg kit.WorldCfg, setup []kit.TxSpec, pickID func(t *rapid.T, l, store string) string) kit.History {
+	return kit.GenHistoryFrom(t, cfg, setup, 25, 3, false, 50, func(t *rapid.T, l string, m *kit.Model) kit.Op {
 		x := rapid.IntRange(0, 99).Draw(t, l+"_what")
 		switch {
 		case x < 8:
-			store := []string{"as", "ak", "bs", "bs", "cs"}[rapid.IntRange(0, 4).Draw(t, l+"_cstore")]
+			store := []string{"as", "ak", "bs", "bs", "cs", "ds"}[rapid.IntRange(0, 5).Draw(t, l+"_cstore")]
 			return kit.Op{Kind: "create", Store: store, ID: pickID(t, l+"_cid", store), Spec: &kit.EntSpec{Name: "n"}}
 		case x < 16:
-			store := []string{"as", "ak", "bs", "bs", "cs"}[rapid.IntRange(0, 4).Draw(t, l+"_dstore")]
+			store := []string{"as", "ak", "bs", "bs", "cs", "ds"}[rapid.IntRange(0, 5).Draw(t, l+"_dstore")]
 			return kit.Op{Kind: "delete", Store: store, ID: pickID(t, l+"_did", store)}
 		case x < 30:
 			// the link set is persisted together with the entity: PersistContext.SetLinkedIds from PersistEntity,
